@@ -9,7 +9,8 @@ steering inputs u in {-1, 1} x len(us) in {0, 1, 2} x n in {0, 1, 2}.
 
 Oracle (a), dynamic: an accepted program never fails with NameError /
 UnboundLocalError / a KeyError whose key is an identifier (missing definition,
-from compilation or execution) and never returns None.
+from compilation or execution) and never runs past the end of its body (observed
+as a None result or as the interpreter's TypeError('not an FPy value: None')).
 Oracle (b), static: `ScopeModel` below -- written from docs/USAGE.md "Control
 Flow" and docs/source/dev/semantics.rst, not from the implementation -- marks
 programs in which some reachable read is not preceded by a binding on every
@@ -171,6 +172,12 @@ def classify_exception(e: BaseException):
     return None
 
 
+def fell_off_end(e: BaseException) -> bool:
+    """The compiled body returned Python's None (no `return` was executed); the interpreter's boundary
+    conversion reports that as TypeError('not an FPy value: None')."""
+    return isinstance(e, TypeError) and str(e).strip() == 'not an FPy value: None'
+
+
 def reject_label(e: BaseException) -> str:
     msg = str(e)
     if 'unbound variable' in msg:
@@ -294,7 +301,9 @@ class Check(BaseCheck):
                 res = fn(*make_args(inp))
             except Exception as e:  # noqa: BLE001 - classification is the point
                 cls = classify_exception(e)
-                if cls is not None:
+                if fell_off_end(e):
+                    none_inputs.append(inp)
+                elif cls is not None:
                     unbound.setdefault(cls, (inp, repr(e)))
                 else:
                     other.setdefault(type(e).__name__, (inp, repr(e)))
@@ -337,7 +346,8 @@ class Check(BaseCheck):
             r.violate({'kind': 'returns-None', 'tail': tail_shape(prog),
                        'model_falls_off': str(model.falls_off)},
                       dict(case, oracle='a-none', input=list(inp)),
-                      f'accepted, but f{make_args(inp)} returned None (control fell off the end)\n{src}')
+                      f'accepted, but f{make_args(inp)} ran past the end of the body without a return '
+                      f'(result None / TypeError "not an FPy value: None")\n{src}')
         elif model.falls_off and not mr:
             # statically a path reaches the end; with correlated conditions no input may take it
             r.outcomes['accepted/static-fall-off-path-not-taken'] += 1
